@@ -13,6 +13,7 @@ from executorlib.standalone.inputcheck import (
     check_gpus_per_worker,
     check_init_function,
     check_nested_flux_executor,
+    check_cores_and_threads,
     check_oversubscribe,
     check_pmi,
     check_resource_dict_is_empty,
@@ -208,6 +209,10 @@ def create_executor(
         backend = "flux_allocation"
     check_pmi(backend=backend, pmi=flux_executor_pmi_mode)
     cores_per_worker = resource_dict["cores"]
+    check_cores_and_threads(
+        cores=cores_per_worker,
+        threads_per_core=resource_dict.get("threads_per_core", 1),
+    )
     if not block_allocation:
         check_resource_limits(
             max_cores=max_cores,
